@@ -36,6 +36,18 @@ func p08Return(tag string) (string, p08Ret) {
 	return "new(int), errA", p08Ret{false, false, true, false}
 }
 
+// p08AtDereference reports whether some diagnostic sits on a line of the source that dereferences the guarded result
+// (`*v` / `*w`): the report of a convention violation is located at the dereference that would panic.
+func p08AtDereference(r pipeResult, src string) bool {
+	lines := strings.Split(src, "\n")
+	for l := range r.lines() {
+		if l >= 1 && l <= len(lines) && (strings.Contains(lines[l-1], "*v") || strings.Contains(lines[l-1], "*w")) {
+			return true
+		}
+	}
+	return false
+}
+
 func p08Ite(c bool, a, b p08Ret) p08Ret {
 	return p08Ret{ndIteBool(c, a.vnil, b.vnil), ndIteBool(c, a.enil, b.enil), ndIteBool(c, a.eIsA, b.eIsA), ndIteBool(c, a.eIsB, b.eIsB)}
 }
@@ -161,6 +173,7 @@ func Harness_P08() {
 	ndAssert("P08.A3.no_internal_failure", !internal)
 	reported := len(r.diags) > 0
 	ndAssert("P08.A1.a_possible_nil_dereference_of_a_guarded_result_is_reported", ndImplies(panics, reported))
+	ndAssert("P08.A1b.the_report_is_located_at_a_dereference_of_the_result", ndImplies(panics, p08AtDereference(r, src)))
 	if respects && proper {
 		ndAssert("P08.A2.checked_use_of_a_convention_respecting_callee_is_not_reported", !reported)
 	}
@@ -248,6 +261,7 @@ func Harness_P08_Ok() {
 	ndAssert("P08.A3.no_internal_failure", !internal)
 	reported := len(r.diags) > 0
 	ndAssert("P08.ok.A1.a_possible_nil_dereference_of_a_guarded_result_is_reported", ndImplies(panics, reported))
+	ndAssert("P08.ok.A1b.the_report_is_located_at_a_dereference_of_the_result", ndImplies(panics, p08AtDereference(r, src)))
 	// With named results the first return is a bare `return`: its ok operand is not a constant, NilAway has to
 	// assume it may be true, and reporting `v, ok = nil, false; return` is within what the property allows
 	// ("constant ok operands"). A2 is therefore stated for explicit returns only.
